@@ -93,6 +93,14 @@ def w_frame(acc, frame, L, prefix):
     harness.run_cases(acc, "text", o_text, splitinputs.frame_texts(frame, L, prefix), True)
 
 
+def w_large(acc, n):
+    acc.run("deriv", o_deriv, bibgen.large_document(n), True)
+    for name, text in splitinputs.scaled_families(n):
+        if len(text) < 400000:
+            acc.run("text", o_text, text, True)
+    acc.classes["large-document"] += 1
+
+
 def w_random(acc, n, seed):
     harness.run_hyp(acc, "text", o_text, splitinputs.st_garbage(), n, seed)
     harness.run_hyp(acc, "deriv", o_deriv, bibgen.strategies(), n, seed)
@@ -106,6 +114,7 @@ def run(chk):
     tasks = [("w_sigma", t) for t in tokens.seq_tasks(tokens.SIGMA_S, L)]
     for fr in splitinputs.FRAMES_S:
         tasks += [("w_frame", (fr,) + t) for t in tokens.seq_tasks(tokens.SIGMA_F, FL, prefix_len=1 if FL <= 5 else 2)]
+    tasks += [("w_large", (n,)) for n in ((130, 300, 1100) if quick else (130, 300, 1100, 4200))]
     n_rand = 24000 if quick else 400000
     shards = 16 if quick else 64
     for s in range(shards):
